@@ -10,7 +10,7 @@ from pyteal.ir import (
     TealComponent,
 )
 from pyteal.util import unescapeStr, correctBase32Padding
-from pyteal.errors import TealInternalError
+from pyteal.errors import TealInputError, TealInternalError
 
 intEnumValues = {
     # OnComplete values
@@ -86,7 +86,13 @@ def extractAddrValue(op: TealOp) -> Union[str, bytes]:
 
     value = cast(str, op.args[0])
     if not value.startswith("TMPL_"):
-        value = encoding.decode_address(value)
+        try:
+            value = encoding.decode_address(value)
+        except Exception as e:
+            # e.g. an address whose checksum is wrong (Addr only checks length and alphabet)
+            raise TealInputError(
+                "Invalid address in addr opcode: {} ({})".format(value, e)
+            ) from e
     return value
 
 
